@@ -111,7 +111,7 @@ def run(prop, tier):
         real_scans=tot["real_scans"], real_scans_discarded_hypotest_nan_at_mu0=tot["real_discarded_nan_at_mu0"], real_hypotests_at_limits=tot["real_hypotests"], limits_compared=tot["limits_compared"],
         automatic_scans_ok_at_nondefault_level=tot["nondefault_level_toms"], lower_bound_extended=tot["extended_lo"],
         upper_bound_extended=tot["extended_hi"], unbracketed_grid_curves_skipped=tot["unbracketed_curves"],
-        return_results_checked=tot["results_checked"], edge_cases_crossing_on_upper_bound=edge,
+        return_results_checked=tot["results_checked"], edge_cases_crossing_on_a_scan_bound=edge,
         max_toms_deviation_in_units_of_rtol=maxrel_toms, max_real_cls_rel_deviation=maxrel_real,
         rule=("TLC enumerates every call (entry point upper_limit / deprecated upperlimit / toms748_scan / linear_grid_scan) x 3 curve shapes x "
               "4 scale sets (six ordered piecewise-linear CLs curves, rational knots) x 5 levels x 7 POI bounds (bracketing, too low, too high) "
